@@ -283,6 +283,7 @@ func (s *clientSocket) finishUpgradeTo(t ClientTransport, c *transport.Callbacks
 
 	old.Discard()
 
+	vhook.Yield("eio.c.upgrade.beforeUpgradePacket", s)
 	t.Send(p)
 	s.debug.Log("upgradeTo", "upgraded to", t.Name())
 	// Don't block
